@@ -252,6 +252,8 @@ class Body:
                 r.add(t['d']['l'])
             elif t['k'] == 'call':
                 fn = (t['f'].get('fn') or '') if isinstance(t['f'], dict) else ''
+                if re.search(r'Option::<T>::(ok_or|ok_or_else|is_some|is_none)$|Result::<T, E>::(ok|is_ok|is_err)$|<impl bool>::then_some$', fn) and t['args'] and 'l' in t['args'][0] and not t['args'][0]['p'] and not t['dst']['p']:
+                    copies.append((t['dst']['l'], t['args'][0]['l']))
                 if fn.endswith('Try::branch') and t['args'] and 'l' in t['args'][0] and not t['args'][0]['p']:
                     r.add(t['args'][0]['l'])
                     if not t['dst']['p']:
@@ -365,6 +367,27 @@ class Body:
                         f2 = f2 | {(dl, 'Continue')}
                     elif v in ('Err', 'None'):
                         f2 = f2 | {(dl, 'Break')}
+                elif not t['dst']['p'] and t['args'] and 'l' in t['args'][0] and not t['args'][0]['p'] and re.search(r'Option::<T>::(ok_or|ok_or_else|is_some|is_none)$|Result::<T, E>::(ok|is_ok|is_err)$|<impl bool>::then_some$', fn):
+                    # std adaptors with fixed semantics on a KNOWN variant: the result's variant follows (refines reachability only)
+                    v = dict(facts).get(t['args'][0]['l'])
+                    nm = fn.rsplit('::', 1)[-1]
+                    nv = None
+                    if nm in ('ok_or', 'ok_or_else'):
+                        nv = {'Some': 'Ok', 'None': 'Err'}.get(v)
+                    elif nm == 'ok':
+                        nv = {'Ok': 'Some', 'Err': 'None'}.get(v)
+                    elif nm == 'is_some':
+                        nv = {'Some': '#1', 'None': '#0'}.get(v)
+                    elif nm == 'is_none':
+                        nv = {'Some': '#0', 'None': '#1'}.get(v)
+                    elif nm == 'is_ok':
+                        nv = {'Ok': '#1', 'Err': '#0'}.get(v)
+                    elif nm == 'is_err':
+                        nv = {'Ok': '#0', 'Err': '#1'}.get(v)
+                    elif nm == 'then_some':
+                        nv = {'#1': 'Some', '#0': 'None'}.get(v)
+                    if nv is not None:
+                        f2 = f2 | {(dl, nv)}
                 elif fn.endswith('FromResidual::from_residual') and not t['dst']['p']:
                     # `?` on None / Err(e): the value built from the residual is None / Err(..)
                     ty = re.sub(r'^(std|core)::(option|result)::', '', self.local_ty(dl) or '')
